@@ -73,6 +73,9 @@ class Gen:
             return self.operand(d - 1) + " ? " + self.expr(d - 1) + " : " + self.expr(d - 1)
         if k < 74:
             return self.target(d - 1) + " " + self.r.choice(["=", "-=", "*=", "||=", "??="]) + " " + self.expr(d - 1)
+        if k < 75 and d > 0:
+            self.tags.add('destructuring-default')
+            return "({ p = " + self.expr(d - 1) + " } = " + self.operand(d - 1) + ")"
         if k < 77:
             self.tags.add('bare')
             return self.r.choice(self.methods + ["f", "g"]) + "(" + self.args(d - 1) + ")"
@@ -164,6 +167,9 @@ class Gen:
         if k < 9:
             self.tags.add('target-computed')
             return self.ident() + "[" + self.r.choice(["k", "i++", "f()", "'key'"]) + "]"
+        if k == 9 and self.r.chance(1, 2):
+            self.tags.add('target-op-in-key')
+            return self.ident() + "[" + self.r.choice([self.ident() + " + " + self.ident(), self.ident() + "." + self.method() + "()", "`k${" + self.ident() + "}`"]) + "]"
         self.tags.add('target-call')
         return self.ident() + "()." + self.r.choice(["p", "q"])
 
@@ -275,6 +281,9 @@ class Gen:
             arr = "..." + self.ident()
         elif j == 2:
             arr = "[" + self.expr(d) + ",, " + self.expr(d) + "]"
+        elif j == 3:
+            self.tags.add('apply-nested-array')
+            arr = "[[" + self.expr(d) + ", " + self.ident() + "], " + self.expr(d) + "]"
         else:
             arr = "[" + self.array_elems(d) + "]"
         extra = self.r.choice(["", "", "", ", 1"])
@@ -329,10 +338,21 @@ class Gen:
 
     def arrow(self, d):
         k = self.r.below(6)
-        p = self.r.choice(["v", "(v, w)", "()", "(v = " + self.expr(d) + ")", "async v", "({v})"])
+        p = self.r.choice(["v", "(v, w)", "()", "(v = " + self.expr(d) + ")", "async v", "async (v, w)", "({v})"])
+        save_async = self.in_async
+        if p.startswith("async"):
+            self.in_async = True
+        try:
+            return self._arrow_body(d, k, p)
+        finally:
+            self.in_async = save_async
+
+    def _arrow_body(self, d, k, p):
         if k < 3:
             self.tags.add('arrow-expr')
             body = self.expr(d)
+            if p.startswith("async") and self.r.chance(1, 2):
+                body = "await " + self.operand(d) + " + " + self.ident()
             if body.startswith("{"):
                 body = "(" + body + ")"
             return p + " => " + body
@@ -465,6 +485,10 @@ class Gen:
                 members.append("get g() { " + self.directives() + self.stmts(d, 1) + " }")
             elif k == 5:
                 members.append("constructor(" + self.params(d) + ") { " + self.stmts(d, 2) + " }")
+            elif k == 6 and self.r.chance(1, 2):
+                self.tags.add('private-name')
+                m = self.method()
+                members.append("#pf = " + self.expr(d) + "; #pm(v){ return this.#pf." + m + "(v) + this.#pf." + m + ".call(v, " + self.expr(d) + ") + this.#pm.call(this, v) + this.#pf.trim.apply(v, [1]); }")
             else:
                 members.append("m(" + self.params(d) + ") { " + self.stmts(d, 2) + " }")
         return "class K" + str(self.r.below(5)) + self.r.choice(["", " extends Base"]) + " { " + " ".join(members) + " }"
@@ -792,7 +816,8 @@ def mal_requests(seed, n):
             elif ref_kind == 10:
                 url = "idx.map"; files = {"%PARENT%/idx.map": MAP_INDEX}
             else:
-                url = g.choice(["", " ", "é" * 50 + "/m.map", "a" * 5000, "data:", "data:application/json;base64,", "http://x/y.map"])
+                url = g.choice(["", " ", "é" * 50 + "/m.map", "a" * 5000, "data:", "data:application/json;base64,", "http://x/y.map",
+                                "".join(g.choice(["a", "é", "日", "𝒳", "/", "-"]) for _ in range(40 + g.below(120))) + ".map"])
             style = g.below(4)
             if style == 0:
                 src = body + "//# sourceMappingURL=" + url
